@@ -17,6 +17,7 @@ CHECKS = {
     "C06": (MC, "TLC model checking (MC_Bind with same-seed/other-key setups) + replay", "5 C06"),
     "C07": (MC, "TLC model checking (MC_Route: all routings, all interleavings) + replay + TLC trace validation of random adversarial histories", "5 C07"),
     "C08": (MC, "TLC model checking (absent-record sessions in MC_Route / MC_Tamper) + replay + trace validation", "5 C08"),
+    "C09": ("other", "byte-exact conformance: TLC emits the full term of every output of honest executions (MC_Bytes); a reference term evaluator (no opaque-ke code) computes the bytes RFC 9807 / RFC 9497 prescribe and compares them with the implementation's outputs", "5 C09"),
     "C10": (MC, "TLC model checking of spec/Wire.tla (operational decoder model, all 20 suites) + verdict-table conformance of the real decoders + classifier-guided mutation", "5 C10"),
     "C11": (MC, "TLC model checking of spec/Wire.tla (NoInvalid) + every invalid class in every field through native, bincode and JSON decoders", "5 C11"),
     "C12": ("exploration", "model-guided exploration under catch_unwind: Wire.tla verdict table + classifier-guided decoder inputs, TLC-generated behaviours with over-long parameters (MC_Long) and cross-delivered messages, recorded histories validated by TLC", "5 C12"),
@@ -28,6 +29,9 @@ CHECKS = {
     "C18": (MC, "TLC model checking (MC_Ext) + replay with a shadow execution holding all keys directly, and failure of every external-key call position", "5 C18"),
 }
 TEXT = {
+    "other": "Per-execution validation of the implementation's outputs against the specification's terms: the RFC formulas are the "
+             "operators of the TLA+ specification (single source), TLC shows they make the protocol work and enumerates the shapes, a "
+             "reference evaluator turns each emitted term into bytes.  Not a proof: sampled over inputs and tapes, all 20 suite combinations.",
     "exploration": "Model-guided exploration: the TLA+ specifications (Wire.tla verdict table, MC_Long / MC_Tamper behaviours, OpaqueTrace) "
                    "supply the inputs and the expected verdicts; every call into opaque-ke runs under catch_unwind and a panic or hang is "
                    "the violation.  Sampling over concrete bytes, class-guided; not exhaustive.",
